@@ -5,18 +5,22 @@
 package mirror
 
 //@ func NewIPv4HeaderTpl
+//@   names proto _
 //@   ensures result.Version == 4 && result.IHL == 5 && result.TOS == 0 && result.TTL == 64 && result.Protocol == proto % 256 && result.Length == 0
 
 //@ func NewIPv6HeaderTpl
+//@   names proto _
 
 // the 20-octet IPv4 header template: version/IHL, TOS, total length, no fragmentation, TTL, protocol
 //@ func (IPv4).Marshal
+//@   names ip _ b
 //@   requires ip.Version < 16 && ip.IHL < 16
 //@   ensures len(result) == 20 && result[0] == ip.Version*16 + ip.IHL && result[1] == ip.TOS && result[2]*256 + result[3] == ip.Length
 //@   ensures result[4] == 0 && result[5] == 0 && result[6] == 0 && result[7] == 0 && result[8] == ip.TTL && result[9] == ip.Protocol && result[10] == 0 && result[11] == 0
 
 // total length = header + n (n counts the UDP header and the payload)
 //@ func (IPv4).SetLen
+//@   names ip b n
 //@   requires len(b) >= 4
 //@   ensures b[2]*256 + b[3] == (20 + n % 65536) % 65536 && len(b) == old(len(b))
 //@   ensures b.off == old(b.off) && (forall q :: q != b.off + 2 && q != b.off + 3 ==> b.arr[q] == old(b.arr)[q])
@@ -26,6 +30,7 @@ package mirror
 //@ spec v4octet(ip net.IP, k mathint) mathint = len(ip) == 4 ? ip[k] : ip[12 + k]
 //@ pred isV4(ip net.IP) = len(ip) == 4 || (len(ip) == 16 && ip[0] == 0 && ip[1] == 0 && ip[2] == 0 && ip[3] == 0 && ip[4] == 0 && ip[5] == 0 && ip[6] == 0 && ip[7] == 0 && ip[8] == 0 && ip[9] == 0 && ip[10] == 255 && ip[11] == 255)
 //@ func (IPv4).SetAddrs
+//@   names ip b src dst
 //@   requires len(b) >= 20
 //@   ensures len(b) == old(len(b))
 //@   ensures [src] isV4(src) ==> b[12] == v4octet(src, 0) && b[13] == v4octet(src, 1) && b[14] == v4octet(src, 2) && b[15] == v4octet(src, 3)
@@ -34,29 +39,37 @@ package mirror
 //@   modifies contents(b)
 
 //@ func (IPv6).Marshal
+//@   names ip _ b
 //@   ensures len(result) == 40
 //@ func (IPv6).SetLen
+//@   names ip b n
 //@   requires len(b) >= 6
 //@   ensures len(b) == old(len(b))
 //@   modifies contents(b)
 //@ func (IPv6).SetAddrs
+//@   names ip b src dst
 //@   requires len(b) >= 24
 //@   ensures len(b) == old(len(b))
 //@   modifies contents(b)
 
 //@ func (*UDP).Marshal
+//@   names u _ b
 //@   ensures len(result) == 8 && result[0]*256 + result[1] == u.SrcPort % 65536 && result[2]*256 + result[3] == u.DstPort % 65536
 //@   ensures result[4]*256 + result[5] == (8 + u.Length) % 65536 && result[6]*256 + result[7] == u.Checksum % 65536
 
 //@ func (*UDP).SetLen
+//@   names u b n
 //@   requires len(b) >= 6
 //@   ensures b[4]*256 + b[5] == (8 + n) % 65536 && len(b) == old(len(b))
 //@   ensures b.off == old(b.off) && (forall q :: q != b.off + 4 && q != b.off + 5 ==> b.arr[q] == old(b.arr)[q])
 //@   modifies contents(b)
 
 //@ func (*UDP).SetChecksum
+//@   names u
 
 //@ func NewRawConn
+//@   names raddr _ _ err conn ipv4 ip ipv6 ip
 //@   opt noverify raw socket set-up through package syscall
 //@ func (*Conn).Send
+//@   names c b _
 //@   opt noverify syscall.Sendto
